@@ -384,7 +384,10 @@ func clampOffs(n, l int) int {
 }
 
 func genAPIString(t *rapid.T, label string) B {
-	switch weighted(t, label+"_k", 4, 2, 2, 2, 1, 3, 1) {
+	switch weighted(t, label+"_k", 8, 4, 4, 4, 2, 6, 2, 3) {
+	case 7: // a list / URI that ends inside an item: the call suspends or fails half-way (whatever state it built must not outlive it)
+		base := pick(t, label+"_ib", "", "a=1;", "transport=udp;", "sip:bob@example.org;", "sip:h?", "sip:h;lr?a=1&", "x=1&")
+		return B(base + pick(t, label+"_ie", "x=\"abc", "x=\"", "x=\"a\\", "maddr=", "ttl", "x =", "x= \"q;r", "h=\"v"))
 	case 5: // a well-formed ';' list with distinct names (reaches the comparison loops)
 		var w []byte
 		n := rapid.IntRange(1, 6).Draw(t, label+"_np")
@@ -664,6 +667,13 @@ var C04IsoAPI = Register(&Check[CaseIsoAPI]{
 		for i := range solo {
 			if solo[i] != got[i] {
 				return viol("input %d (%s): results differ when run concurrently with %d other calls:\n solo %s\n conc %s", i, cs.Inputs[i], len(solo)-1, solo[i], got[i])
+			}
+		}
+		// interleaved, not concurrent: the same calls again one after the other in the opposite order - a call must
+		// not depend on which other calls (on other inputs) came before it
+		for i := len(cs.Inputs) - 1; i >= 0; i-- {
+			if again := apiDigest(cs.Inputs[i]); again != solo[i] {
+				return viol("input %d (%s): the result depends on the calls made before it (same call, other history):\n first  %s\n second %s", i, cs.Inputs[i], solo[i], again)
 			}
 		}
 		return ok(len(cs.Inputs) >= 2)
